@@ -4,6 +4,7 @@ package main
 
 import (
 	"fmt"
+	"runtime/debug"
 	"go/types"
 	"strings"
 
@@ -92,7 +93,16 @@ func (P *Program) VerifyFunc(ct *Contract, fn *ssa.Function) (res *FuncResult) {
 			case *specErr:
 				res.Err = "contract error: " + e.msg
 			default:
-				panic(r)
+				// an engine bug must not take the other functions down: report it as not verifiable
+				stack := string(debug.Stack())
+				where := ""
+				for _, l := range strings.Split(stack, "\n") {
+					if strings.Contains(l, "/govc/") && !strings.Contains(l, "verify.go") {
+						where = strings.TrimSpace(l)
+						break
+					}
+				}
+				res.Err = fmt.Sprintf("engine error: %v at %s", r, where)
 			}
 			res.Obls = nil
 		}
@@ -131,8 +141,25 @@ func (P *Program) VerifyFunc(ct *Contract, fn *ssa.Function) (res *FuncResult) {
 			continue
 		}
 		aenv := &SpecEnv{ex: ex, vars: map[string]Val{}, stypes: map[string]*SType{}, cur: entry, old: entry, pkg: P.typesPkg(ax.Pkg), what: "axiom " + ax.Tag}
-		// only added to queries that mention one of the axiom's spec functions
-		vc.AddCondAxiom(aenv.boolE(ax.Expr), "axiom "+shortPkg(ax.Pkg)+": "+ax.Src)
+		// only added to queries that mention one of the ghost functions declared in the axiom's own package;
+		// an axiom that mentions none of them is local to its package
+		var own []string
+		for name, g := range P.ghosts {
+			if g.Pkg == ax.Pkg && g.Body == nil {
+				own = append(own, "gf_"+sanitize(name))
+			}
+		}
+		term := aenv.boolE(ax.Expr)
+		var syms []string
+		for _, o := range own {
+			if strings.Contains(term, o+" ") || strings.Contains(term, o+")") {
+				syms = append(syms, o)
+			}
+		}
+		if len(syms) == 0 && ax.Pkg != ct.Pkg {
+			continue
+		}
+		vc.AddCondAxiomSyms(term, syms, "axiom "+shortPkg(ax.Pkg)+": "+ax.Src)
 	}
 	// requires
 	env := &SpecEnv{ex: ex, f: f, vars: vars, stypes: map[string]*SType{}, cur: st, old: entry, pkg: pkg, expand: ex.expands, what: "requires of " + ct.Target}
@@ -156,6 +183,53 @@ func (P *Program) VerifyFunc(ct *Contract, fn *ssa.Function) (res *FuncResult) {
 		t := e.boolE(rq.Expr)
 		reqTerms = append(reqTerms, t)
 		vc.Assume(t)
+	}
+	for _, as := range ct.Assumes {
+		vc.Assume(env.boolE(as.Expr))
+		vc.trusted["environment assumption of "+shortPkg(ct.Pkg)+"."+ct.Target+" ("+as.Tag+"): "+as.Src] = true
+	}
+	// facts exported by the same handler type's Validate hold under the validated token
+	if im != nil && fn.Signature.Recv() != nil && (strings.HasSuffix(normTarget(ct.Target), ".ProcessCheck") || strings.HasSuffix(normTarget(ct.Target), ".ProcessDeliver") || strings.HasSuffix(normTarget(ct.Target), ".ProcessFee")) {
+		t := normTarget(ct.Target)
+		vkey := ct.Pkg + "." + t[:strings.LastIndex(t, ".")] + ".Validate"
+		if vct := P.contracts[vkey]; vct != nil && len(vct.Exports) > 0 {
+			self := args[0]
+			selfIface := fmt.Sprintf("(mk_iface %d %s)", P.reg.TypeTag(fn.Signature.Recv().Type()), "0")
+			if _, isPtr := fn.Signature.Recv().Type().Underlying().(*types.Pointer); isPtr {
+				selfIface = fmt.Sprintf("(mk_iface %d %s)", P.reg.TypeTag(fn.Signature.Recv().Type()), self.T)
+			}
+			_ = selfIface
+			evars := map[string]Val{}
+			for k, v := range vars {
+				evars[k] = v
+			}
+			var token string
+			if stx := signedTxParam(fn, args); stx != nil {
+				evars["raw"] = ex.fieldOf(*stx, "RawTx")
+				evars["sigs"] = ex.fieldOf(*stx, "Signatures")
+				token = "validatedTx(self, " + paramNameOf(fn, stx) + ")"
+			} else if rtx := rawTxParam(fn, args); rtx != nil {
+				evars["raw"] = *rtx
+				token = "validatedRaw(self, " + paramNameOf(fn, rtx) + ")"
+			}
+			if token != "" {
+				// the token was granted for this handler object: `self` as the interface value the wrapper called
+				evars["self"] = Val{T: ex.ifaceOfRecv(fn, self), S: SIface}
+				tenv := &SpecEnv{ex: ex, f: f, vars: evars, stypes: map[string]*SType{}, cur: st, old: entry, pkg: P.typesPkg(im.Pkg), expand: ex.expands, what: "validated token of " + ct.Target}
+				te, err := ParseExpr(token)
+				if err == nil {
+					tok := tenv.boolE(te)
+					for _, c := range vct.Exports {
+						if _, hasSigs := evars["sigs"]; !hasSigs && mentionsVar(c.Expr, "sigs") {
+							continue
+						}
+						cenv := &SpecEnv{ex: ex, f: f, vars: evars, stypes: map[string]*SType{}, cur: st, old: entry, pkg: pkg, expand: ex.expands, what: "exported fact of " + vct.Target}
+						vc.Assume(implies(tok, cenv.boolE(c.Expr)))
+						vc.trusted["validated-facts: a fact proved for "+shortPkg(vct.Pkg)+"."+vct.Target+" (exports) is assumed in "+ct.Target+" under the validated token; facts are functions of the transaction and of state that is constant after genesis (A-CURRENCIES)"] = true
+					}
+				}
+			}
+		}
 	}
 	// vacuity: the preconditions (with type invariants) must be satisfiable
 	vc.AddObligation(&Obligation{Name: fmt.Sprintf("cover/%s/requires-sat", ex.oblPrefix), Tag: "cover", Kind: "cover", Func: fn.String(), Goal: "true", IsCover: true, Desc: "preconditions are satisfiable"})
@@ -187,6 +261,18 @@ func (P *Program) VerifyFunc(ct *Contract, fn *ssa.Function) (res *FuncResult) {
 	for _, c := range ct.Claims {
 		all = append(all, ens{c, pkg, ct.Target})
 	}
+	if len(ct.Exports) > 0 {
+		stx := signedTxParam(fn, args)
+		if stx == nil {
+			res.Err = "contract error: exports needs a parameter of type action.SignedTx"
+			return res
+		}
+		vars["raw"] = ex.fieldOf(*stx, "RawTx")
+		vars["sigs"] = ex.fieldOf(*stx, "Signatures")
+		for _, c := range ct.Exports {
+			all = append(all, ens{Clause{Tag: c.Tag, Src: "result0 ==> " + c.Src, Expr: &SExpr{Op: "binop", Name: "==>", Args: []*SExpr{{Op: "var", Name: "result0"}, c.Expr}}}, pkg, ct.Target})
+		}
+	}
 	// ghost updates at every return
 	for k := range rets {
 		r := &rets[k]
@@ -206,7 +292,9 @@ func (P *Program) VerifyFunc(ct *Contract, fn *ssa.Function) (res *FuncResult) {
 			vt := uenv.resolveTypeIn(m.Type, m.Pkg)
 			val := uenv.Eval(up.Value)
 			hn, hs := "G:"+m.Name, ArrS(SInt, vt.S)
-			ex.setH(r.st, hn, hs, sto(ex.H(r.st, hn, hs), uenv.ref(x, up.Target.Args[0]), val.T))
+			ref := uenv.ref(x, up.Target.Args[0])
+			cur := ex.H(r.st, hn, hs)
+			ex.setH(r.st, hn, hs, ite(eq(ref, "0"), cur, sto(cur, ref, val.T))) // nil has no ghost fields
 		}
 	}
 	anyReach := []string{}
@@ -433,4 +521,145 @@ func importsPkg(p *types.Package, path string) bool {
 		return false
 	}
 	return rec(p, 0)
+}
+
+func isNamedIn(t types.Type, pkgSuffix, name string) bool {
+	n, ok := types.Unalias(t).(*types.Named)
+	return ok && n.Obj().Name() == name && n.Obj().Pkg() != nil && strings.HasSuffix(n.Obj().Pkg().Path(), pkgSuffix)
+}
+
+func signedTxParam(fn *ssa.Function, args []Val) *Val {
+	for i, p := range fn.Params {
+		if isNamedIn(p.Type(), "/action", "SignedTx") {
+			return &args[i]
+		}
+	}
+	return nil
+}
+
+func rawTxParam(fn *ssa.Function, args []Val) *Val {
+	for i, p := range fn.Params {
+		if isNamedIn(p.Type(), "/action", "RawTx") {
+			return &args[i]
+		}
+	}
+	return nil
+}
+
+func paramNameOf(fn *ssa.Function, v *Val) string {
+	for _, p := range fn.Params {
+		if isNamedIn(p.Type(), "/action", "SignedTx") || isNamedIn(p.Type(), "/action", "RawTx") {
+			return p.Name()
+		}
+	}
+	return ""
+}
+
+func mentionsVar(e *SExpr, name string) bool {
+	if e == nil {
+		return false
+	}
+	if e.Op == "var" && e.Name == name {
+		return true
+	}
+	for _, a := range e.Args {
+		if mentionsVar(a, name) {
+			return true
+		}
+	}
+	return false
+}
+
+// fieldOf selects a (possibly embedded) field of a struct value.
+func (ex *Exec) fieldOf(v Val, name string) Val {
+	path, _, ok := fieldPath(v.GT, name)
+	cur := v
+	if !ok {
+		return v
+	}
+	for _, idx := range path {
+		si := ex.reg.StructInfoOf(cur.GT)
+		fl := si.Fields[idx]
+		cur = Val{T: app(fl.Acc, cur.T), S: fl.Sort, GT: fl.T}
+	}
+	return cur
+}
+
+// ifaceOfRecv: the interface value through which a method with this receiver is invoked. Value receivers are
+// boxed: the wrapper's handler value has an unknown box address, so the payload is left unconstrained by using
+// a per-type constant (handlers are stateless empty structs; identity of the box does not matter for the token,
+// which is why the token is stated on the type tag only for value receivers).
+func (ex *Exec) ifaceOfRecv(fn *ssa.Function, self Val) string {
+	rt := fn.Signature.Recv().Type()
+	tag := ex.reg.TypeTag(rt)
+	if _, isPtr := rt.Underlying().(*types.Pointer); isPtr {
+		return fmt.Sprintf("(mk_iface %d %s)", tag, self.T)
+	}
+	box := ex.reg.Global("handlerbox_"+sanitize(types.TypeString(rt, nil)), SInt)
+	return fmt.Sprintf("(mk_iface %d %s)", tag, box)
+}
+
+// ifaceOfValue: the interface value holding v (pointers by identity; other values through a per-type box constant).
+func (ex *Exec) ifaceOfValue(v Val) string {
+	tag := ex.reg.TypeTag(v.GT)
+	if _, isPtr := v.GT.Underlying().(*types.Pointer); isPtr {
+		return fmt.Sprintf("(mk_iface %d %s)", tag, v.T)
+	}
+	box := ex.reg.Global("handlerbox_"+sanitize(types.TypeString(v.GT, nil)), SInt)
+	return fmt.Sprintf("(mk_iface %d %s)", tag, box)
+}
+
+// frameAt emits, for the heaps in `names`, the obligation that state st agrees with the function-entry
+// heap outside the function's modifies clause (used at loop back edges and after iterator callbacks,
+// where the heap is otherwise forgotten by the havoc at the loop head).
+func (f *Frame) frameAt(names []string, st *PState, guard, where string) {
+	ex := f.ex
+	if ex.topLocs == nil || ex.entry == nil {
+		return
+	}
+	ct := ex.P.ContractFor(ex.top)
+	tag := "frame"
+	if ct != nil {
+		if len(ct.Modifies) > 0 && ct.Modifies[0].Tag != "" {
+			tag = ct.Modifies[0].Tag
+		} else if ct.FrameTag != "" {
+			tag = ct.FrameTag
+		}
+	}
+	for _, hn := range names {
+		hs := ex.hsorts[hn]
+		var mine []Loc
+		all := false
+		for _, l := range ex.topLocs {
+			if l.Heap == hn {
+				mine = append(mine, l)
+				if l.All {
+					all = true
+				}
+			}
+		}
+		if all {
+			continue
+		}
+		h0 := ex.H(ex.entry, hn, hs)
+		h1 := ex.H(st, hn, hs)
+		if h0 == h1 {
+			continue
+		}
+		r := ex.vc.Fresh("fr_r", SInt)
+		ks, _ := splitArraySort(elemSortOfHeap(hs))
+		k := ""
+		for _, l := range mine {
+			if l.Key != "" {
+				k = ex.vc.Fresh("fr_k", ks)
+				break
+			}
+		}
+		same, _ := ex.frameCond(hn, hs, mine, h0, h1, r, k)
+		ex.vc.AddObligation(&Obligation{
+			Name: fmt.Sprintf("%s/%s/frame-%s[%s]%s", tag, ex.oblPrefix, where, hn, f.inlineSuffix()), Tag: tag, Kind: "frame", Func: ex.top.String(),
+			Goal: implies(and(guard, fmt.Sprintf("(<= %s %s)", r, ex.entry.brk), fmt.Sprintf("(>= %s 0)", r)), same),
+			Desc: fmt.Sprintf("only the locations listed in modifies change in heap %s (%s)", hn, where),
+		})
+	}
 }
